@@ -133,16 +133,18 @@ Ltac emits_step :=
 
 Lemma emits_istring : forall s, emits (fmt_istring s) (istring_comments s).
 Proof.
-  intros s. unfold fmt_istring, istring_comments.
-  assert (H : flat_map (fun _ : istring_item => @nil text) (is_items s) = []) by (induction (is_items s); auto).
-  eapply emits_comp with (a := lt_comments (is_lquote s) ++ []) (b := []);
-    [ eapply emits_comp with (a := lt_comments (is_lquote s)) (b := []); [apply emits_loc | | reflexivity]
+  intros s. unfold fmt_istring, istring_comments, istring_comments_with.
+  eapply emits_comp with (a := lt_comments (is_lquote s) ++
+        flat_map (fun i => match i with IString _ => [] | IIdentifierPath p => lt_comments p end) (is_items s)) (b := []);
+    [ eapply emits_comp with (a := lt_comments (is_lquote s)); [apply emits_loc | | reflexivity]
     | apply emits_push | rewrite !app_nil_r; reflexivity ].
-  rewrite <- H. apply (emits_fold fmt_istring_item (fun _ => [])).
-  intros i _. destruct i as [l|l]; simpl.
+  apply (emits_fold fmt_istring_item (fun i => match i with IString _ => [] | IIdentifierPath p => lt_comments p end)).
+  intros i _. destruct i as [l|l]; cbn [fmt_istring_item].
   - apply emits_push.
-  - eapply emits_ext with (g := fun st => push [RBRACE] (push (l_data l) (push [LBRACE] st))); [reflexivity|].
-    repeat emits_step; reflexivity.
+  - (* the repaired interpolation defect: the source must emit the trivia in front of the path *)
+    try unfold emits_interpolation_trivia.
+    eapply emits_ext with (g := fun st => push [RBRACE] (fmt_loc l (push [LBRACE] st))); [reflexivity|].
+    repeat emits_step; try reflexivity. unfold lt_comments. rewrite ?app_nil_r. reflexivity.
 Qed.
 
 (* ---------------------------------------------------------------- expressions *)
@@ -434,11 +436,11 @@ Proof.
   unfold tnows; cbn; rewrite app_nil_r; reflexivity.
 Qed.
 
-Lemma emits_open_block : forall o lp onl, emits (open_block o lp onl) [].
+Lemma emits_open_block : forall o lp, emits (open_block o lp) [].
 Proof.
-  intros o lp onl. unfold open_block. destruct (o_braces o).
-  - ecomp; [apply emits_push | apply emits_push | reflexivity].
-  - ecomp; [ ecomp; [ destruct onl; [apply emits_id | apply emits_push] | apply emits_push | reflexivity] | apply emits_push | reflexivity].
+  intros o lp st. unfold open_block.
+  destruct (o_braces o); [|destruct (emits_lbrace_trivia && last_is_nl st)];
+    repeat rewrite (emits_push _ _); unfold tnows; cbn [concat nows filter]; rewrite ?app_nil_r; reflexivity.
 Qed.
 
 Lemma emits_lbrace_trivium : forall t, emits (fmt_lbrace_trivium t) (trivium_comments t).
